@@ -322,6 +322,9 @@ func (w *World) immutableGlobal(name string) bool {
 }
 
 func (w *World) isLogName(name string) bool {
+	if name == "mapnext" {
+		return true // built-in: iterations of range-over-map loops (key boxed)
+	}
 	for _, c := range w.ct.Funcs {
 		if c.Logged == name {
 			return true
@@ -375,6 +378,12 @@ func (w *World) sigOfContract(c *Contract) (*types.Signature, types.Type) {
 }
 
 func (w *World) logElemType(log, comp string) types.Type {
+	if log == "mapnext" {
+		if comp == "arg0" {
+			return types.NewInterfaceType(nil, nil)
+		}
+		return nil
+	}
 	for _, c := range w.ct.Funcs {
 		for pname, l := range c.LogParams {
 			if l != log {
